@@ -30,6 +30,9 @@ import tr_ckcallers  # noqa: E402
 PATHS = ("name", "new", "old")
 SUFF = {"name": "", "new": ".new", "old": ".old"}
 CK = "checkpoint.json"
+CKNAME = [CK]      # the configured checkpoint name (relative to the scratch directory)
+LINK = [False]     # True: the configured name is a symbolic link run/checkpoint.json -> ../scratch/chain1.json
+LINK_NAME, LINK_TARGET = "run/checkpoint.json", "scratch/chain1.json"
 
 
 _PAY = {}
@@ -71,15 +74,21 @@ def params(gen: int):
 def materialise(d: Path, st: str, gen_of: dict):
     """create directory state `st` (3 letters C/T/A for name,new,old); complete files carry the
     generation given in gen_of"""
+    if LINK[0]:
+        (d / "run").mkdir(exist_ok=True)
+        (d / "scratch").mkdir(exist_ok=True)
     for ch, p in zip(st, PATHS):
-        f = d / (CK + SUFF[p])
-        if f.exists():
+        f = d / (CKNAME[0] + SUFF[p])
+        if os.path.lexists(f):
             f.unlink()
-        if ch == "C":
-            f.write_text(payload(gen_of[p]))
-        elif ch == "T":
-            txt = payload(gen_of[p])
-            f.write_text(txt[: len(txt) // 2])
+        if ch == "A":
+            continue
+        txt = payload(gen_of[p])
+        if LINK[0] and p == "name":  # the checkpoint is reached through a symbolic link
+            (d / LINK_TARGET).write_text(txt if ch == "C" else txt[: len(txt) // 2])
+            os.symlink("../" + LINK_TARGET, f)
+        else:
+            f.write_text(txt if ch == "C" else txt[: len(txt) // 2])
 
 
 def classify(d: Path, max_gen: int):
@@ -87,11 +96,15 @@ def classify(d: Path, max_gen: int):
     wholes = {payload(g): g for g in range(0, max_gen + 1)}
     st, gens = "", {}
     for p in PATHS:
-        f = d / (CK + SUFF[p])
+        f = d / (CKNAME[0] + SUFF[p])
         if not os.path.lexists(f):
             st += "A"
             continue
-        txt = f.read_text()
+        try:
+            txt = f.read_text()
+        except OSError:  # e.g. a dangling symbolic link: the name exists but refers to no complete file
+            st += "T"
+            continue
         if txt in wholes:
             try:
                 json.loads(txt)
@@ -237,16 +250,38 @@ def _caller_obj(kind: str, gen: int):
     import torch
 
     ps = params(gen)
+    if kind.endswith(".from_json"):
+        # built exactly as torchtree builds them from a configuration file, checkpoint option = configured name
+        from torchtree.core.utils import process_objects
+
+        n = (8 - gen) if VARIANT[0] == 0 else (1 + gen)
+        x = [float(gen) + 0.125 * i for i in range(max(n, 1))]
+        spec = [
+            {"id": "joint", "type": "torchtree.distributions.Distribution", "distribution": "torch.distributions.Normal",
+             "x": {"id": "x", "type": "torchtree.Parameter", "tensor": x, "dtype": "torch.float64"},
+             "parameters": {"loc": 0.0, "scale": 1.0}},
+            {"id": "mcmc", "type": "torchtree.inference.mcmc.mcmc.MCMC", "joint": "joint", "iterations": 3,
+             "operators": [{"id": "op", "type": "torchtree.inference.mcmc.operator.ScalerOperator", "parameters": ["x"],
+                            "weight": 1.0, "scaler": 0.5}], "checkpoint": CKNAME[0]},
+            {"id": "opt", "type": "torchtree.optim.optimizer.Optimizer", "algorithm": "torch.optim.SGD",
+             "options": {"lr": 0.5}, "loss": "joint", "parameters": ["x"], "iterations": 3, "checkpoint": CKNAME[0]},
+        ]
+        dic = {}
+        for o in spec:
+            process_objects(o, dic)
+        obj = dic["mcmc" if kind.startswith("MCMC") else "opt"]
+        obj._epoch = gen
+        return obj
     if kind == "Optimizer.save_full_state":
         from torchtree.optim.optimizer import Optimizer
 
         opt = torch.optim.SGD([p.tensor for p in ps[:1]], lr=0.5)
-        o = Optimizer("opt", ps, None, opt, 10, checkpoint=CK)
+        o = Optimizer("opt", ps, None, opt, 10, checkpoint=CKNAME[0])
         o._epoch = gen
         return o
     from torchtree.inference.mcmc.mcmc import MCMC
 
-    m = MCMC("mcmc", None, [], 10, checkpoint=CK)
+    m = MCMC("mcmc", None, [], 10, checkpoint=CKNAME[0])
     m.parameters = ps
     m._epoch = gen
     return m
@@ -254,7 +289,7 @@ def _caller_obj(kind: str, gen: int):
 
 def _caller_write(kind: str, gen: int):
     o = _caller_obj(kind, gen)
-    if kind == "Optimizer.save_full_state":
+    if kind.startswith("Optimizer"):
         o.save_full_state(o.checkpoint)  # as Optimizer._run calls it
     else:
         o.save_full_state()
@@ -265,7 +300,7 @@ _CPAY = {}
 
 def _caller_payload(gen: int) -> str:
     """what a complete checkpoint written by the current caller looks like"""
-    key = (WRITER[0], gen, VARIANT[0])
+    key = (WRITER[0], gen, VARIANT[0], CKNAME[0])
     if key not in _CPAY:
         from torchtree.core.parameter_encoder import ParameterEncoder
 
@@ -297,7 +332,7 @@ def run_write_strace(d: Path, gen: int, when):
 
             try:
                 if WRITER[0] == "save_parameters":
-                    pu.save_parameters(CK, params(gen))
+                    pu.save_parameters(CKNAME[0], params(gen))
                 else:
                     _caller_write(WRITER[0], gen)
                 os.write(w, b"END")
@@ -379,11 +414,11 @@ def explore_syscalls(ck: Check, writer: str, states, tmp_root: Path, worst: list
                 run_write_strace(d2, gen, pt)
                 got_st, _g = classify(d2, gen + 1)
                 h2 = hist + [{"from": st, "kill_before_syscall": list(pt) if pt else None, "position": n,
-                              "writer": writer, "variant": 0, "mode": "strace"}]
-                ck.case(key=("sys", writer, st, tuple(str(h.get("kill_before_syscall")) for h in h2)),
+                              "writer": writer, "variant": 0, "mode": "strace", "symlinked_name": LINK[0]}]
+                ck.case(key=("sys", writer, LINK[0], st, tuple(str(h.get("kill_before_syscall")) for h in h2)),
                         sample={"writer": writer, "initial": st, "kill_before_syscall": pt, "syscalls": calls,
                                 "dir_after": got_st} if level == 1 and n == 2 else None,
-                        bucket=f"{writer}/syscall/depth{level}")
+                        bucket=f"{writer}/syscall{'-symlink' if LINK[0] else ''}/depth{level}")
                 if not safe_pred(got_st):
                     worst.append((h2, got_st))
                 if level < depth and got_st not in seen and pt is not None:
@@ -575,8 +610,26 @@ def run(ck: Check):
                 explore_syscalls(ck, writer, sys_states, tmp_root, worst, 2 if ck.thorough() or writer == "save_parameters" else 1)
             except Exception as e:  # noqa: BLE001
                 ck.notes.append(f"syscall-level enumeration failed for {writer}: {type(e).__name__}: {e}")
+        # the configured name is a symbolic link; writers built through from_json as torchtree builds them
+        try:
+            LINK[0], CKNAME[0] = True, LINK_NAME
+            for writer in ("MCMC.from_json", "Optimizer.from_json", "save_parameters"):
+                try:
+                    explore_syscalls(ck, writer, ["CAA", "CCC"] if ck.thorough() else ["CAA"], tmp_root, worst, 2)
+                except Exception as e:  # noqa: BLE001
+                    ck.mismatch("writer with a symlinked checkpoint name could not be driven",
+                                {"writer": writer, "error": f"{type(e).__name__}: {e}"})
+        finally:
+            LINK[0], CKNAME[0] = False, CK
+        # from_json-built writers with a plain name as well
+        for writer in ("MCMC.from_json", "Optimizer.from_json"):
+            try:
+                explore_syscalls(ck, writer, ["CAA"], tmp_root, worst, 1)
+            except Exception as e:  # noqa: BLE001
+                ck.mismatch("from_json-built writer could not be driven", {"writer": writer, "error": f"{type(e).__name__}: {e}"})
     finally:
         WRITER[0], VARIANT[0] = "save_parameters", 0
+        LINK[0], CKNAME[0] = False, CK
         shutil.rmtree(tmp_root, ignore_errors=True)
         if drv:
             drv.close()
@@ -609,8 +662,7 @@ def _raises(drv, st, ops):
 
 def _clone(d: Path, root: Path) -> Path:
     t = Path(tempfile.mkdtemp(prefix="s-", dir=root))
-    for f in d.iterdir():
-        shutil.copy2(f, t / f.name)
+    shutil.copytree(d, t, symlinks=True, dirs_exist_ok=True)
     return t
 
 
@@ -625,6 +677,8 @@ def replay(path: str) -> int:
     d = Path(tempfile.mkdtemp(prefix="c18r-"))
     WRITER[0] = hist[0].get("writer", "save_parameters")
     VARIANT[0] = hist[0].get("variant", 0)
+    if hist[0].get("symlinked_name"):
+        LINK[0], CKNAME[0] = True, LINK_NAME
     try:
         materialise(d, hist[0]["from"], {"name": 1, "new": 0, "old": 0})
         gen = 2
